@@ -293,8 +293,88 @@ static void callfn_reuse_scenario() {
     vrt_outcome("ok");
 }
 
+// a callback awaiter that re-arms itself from inside its callback (subscribes to the next future) shares the first
+// future with other waiters: releasing the chain must not follow the re-armed awaiter into the other future's chain
+struct Rearmer : cocls::awaiter {
+    cocls::future<Counted> *next = nullptr;
+    int calls = 0;
+    Rearmer() {
+        set_resume_fn([](cocls::awaiter *me, void *) noexcept -> cocls::suspend_point<void> {
+            auto *s = static_cast<Rearmer *>(me);
+            s->calls++;
+            if (s->next) {
+                cocls::future<Counted> *n = s->next;
+                s->next = nullptr;
+                cocls::co_awaiter<cocls::future<Counted>> aw(*n);
+                if (!aw.subscribe(s)) s->calls++;
+            }
+            return {};
+        });
+    }
+};
+static void rearm_scenario(int nothers, bool second_has_waiter) {
+    int64_t *s = vrt_scratch();
+    {
+        cocls::future<Counted> f1, f2;
+        cocls::promise<Counted> p1 = f1.get_promise(), p2 = f2.get_promise();
+        CbAwaiter others[2] = {CbAwaiter(f1, 0), CbAwaiter(f1, 1)};
+        CbAwaiter late(f2, 2);
+        for (int i = 0; i < nothers; i++) {
+            cocls::co_awaiter<cocls::future<Counted>> aw(f1);
+            aw.subscribe(&others[i]);
+        }
+        if (second_has_waiter) {
+            cocls::co_awaiter<cocls::future<Counted>> aw(f2);
+            aw.subscribe(&late);
+        }
+        Rearmer r;
+        r.next = &f2;
+        {
+            cocls::co_awaiter<cocls::future<Counted>> aw(f1);
+            aw.subscribe(&r);  // subscribed last: first in the chain
+        }
+        vstd::thread rt([&] {
+            vrt_label("resolver");
+            p1(Counted(42));
+        });
+        rt.join();
+        VRT_CHECK(r.calls == 1, "future/duplicate-wakeup", "re-arming awaiter was called %d times by the first resolution", r.calls);
+        for (int i = 0; i < nothers; i++)
+            VRT_CHECK(s[S_REL + i] == 1, s[S_REL + i] ? "future/duplicate-wakeup" : "future/lost-wakeup", "waiter %d of the first future was released %ld times after its resolution", i,
+                      (long)s[S_REL + i]);
+        VRT_CHECK(s[S_REL + 2] == 0, "future/early-wakeup", "a waiter of the second future was released although that future is still pending");
+        p2(Counted(43));
+        VRT_CHECK(r.calls == 2, r.calls < 2 ? "future/lost-wakeup" : "future/duplicate-wakeup", "re-arming awaiter: %d calls after both resolutions", r.calls);
+        if (second_has_waiter) VRT_CHECK(s[S_REL + 2] == 1, "future/lost-wakeup", "the waiter of the second future was released %ld times", (long)s[S_REL + 2]);
+    }
+    VRT_CHECK(Counted::live() == 0, "future/value-lifetime", "%ld Counted objects alive at the end", (long)Counted::live());
+    vrt_outcome("ok");
+}
+// future << factory where the factory throws before it returns a future: the future is resolved with that exception
+static void throwing_factory_scenario(int wk) {
+    int64_t *s = vrt_scratch();
+    {
+        cocls::future<Counted> f;
+        f << []() -> cocls::future<Counted> { throw TestError(77); };
+        VRT_CHECK(f.ready(), "future/not-resolved", "a future whose factory threw is not marked resolved");
+        CbAwaiter cb(f, 0);
+        FnAwaiter fnaw(f);
+        FnCtx fnctx{&f, 0};
+        vstd::thread wt(waiter_thread, std::ref(f), 0, wk, &cb, &fnaw, &fnctx);
+        vrt_label("main-join-waiters");
+        wt.join();
+        vrt_label("main");
+        VRT_CHECK(s[S_REL] == 1, s[S_REL] ? "future/duplicate-wakeup" : "future/lost-wakeup", "waiter (%s) released %ld times", wk_names[wk], (long)s[S_REL]);
+        VRT_CHECK(s[S_KIND] == 2 && s[S_VAL] == 77, "future/wrong-result", "waiter saw kind=%ld val=%ld, expected the factory's exception", (long)s[S_KIND], (long)s[S_VAL]);
+    }
+    vrt_outcome("ok");
+}
+
 VRT_REGISTER(reg_wake) {
     vrt::add("wake1_callfn_reuse", [] { callfn_reuse_scenario(); });
+    for (int n = 1; n <= 2; n++)
+        for (int w = 0; w < 2; w++) vrt::add("wake2_rearm_others" + std::to_string(n) + (w ? "_second-has-waiter" : ""), [=] { rearm_scenario(n, w != 0); });
+    for (int wk = 0; wk < W_NK; wk++) vrt::add(std::string("wake1_throwing-factory_") + wk_names[wk], [=] { throwing_factory_scenario(wk); });
     for (int rk = 0; rk <= R_DESTROY; rk++) vrt::add(std::string("wake1_callfn_") + rk_names[rk], [=] { callfn_scenario(rk); });
     for (int rk = 0; rk < R_NK; rk++) {
         // one waiter: every kind
